@@ -203,6 +203,25 @@ ShapeDef(i) ==
                       ELSE Fm(Bin("+", RelRef(1, a[3] - 1), N1))],
          names |-> <<>>, inputs |-> {A("S1", 1, 1), A("S1", 2, 1)},
          targets |-> {A("S1", 1, 3), A("S1", 1, DeepLen \div 2 + 5), A("S1", 1, DeepLen)}]
+    [] i = "crit" ->         \* criteria that are written differently and may read alike as text: a reference to an empty cell, the empty
+                             \* text, the number 0, the text "0", FALSE - over a column holding 0, FALSE, 5 and an empty cell
+        [cells |-> ( A("S1", 1, 1) :> Kc(0) @@ A("S1", 1, 2) :> [c |-> "const", v |-> Bool(FALSE)] @@ A("S1", 1, 3) :> Kc(5)
+                  @@ A("S1", 4, 1) :> Fm(CallN("COUNTIF", <<Rng("", 1, 1, 1, 4), RelRef(3, 1)>>))
+                  @@ A("S1", 4, 2) :> Fm(CallN("COUNTIF", <<Rng("", 1, 1, 1, 4), StrLit(<<>>)>>))
+                  @@ A("S1", 4, 3) :> Fm(CallN("COUNTIF", <<Rng("", 1, 1, 1, 4), NumLit(<<48>>)>>))
+                  @@ A("S1", 4, 4) :> Fm(CallN("COUNTIF", <<Rng("", 1, 1, 1, 4), StrLit(<<48>>)>>))
+                  @@ A("S1", 4, 5) :> Fm(CallN("COUNTIF", <<Rng("", 1, 1, 1, 4), BoolLit(FALSE)>>)) ),
+         names |-> <<>>, inputs |-> {A("S1", 1, 1)}]
+    [] i = "junction" ->     \* AND / OR of three arguments whose MIDDLE one is an error value for some inputs (x/y, y = 0): which argument
+                             \* decides changes with the inputs; with an error value among the arguments the specification leaves the
+                             \* value open (XlLogic!Junction) - the replay then compares with a freshly compiled model (C04 as stated)
+        [cells |-> ( A("S1", 1, 1) :> Kc(3) @@ A("S1", 1, 2) :> Kc(2)
+                  @@ A("S1", 2, 1) :> Fm(CallN("AND", <<Bin(">", RelRef(1, 1), NumLit(<<48>>)), Bin(">", Bin("/", RelRef(1, 2), RelRef(1, 1)), N1),
+                                                         Bin("<", RelRef(1, 2), NumLit(<<49, 48, 48>>))>>))
+                  @@ A("S1", 2, 2) :> Fm(CallN("OR", <<Bin("=", RelRef(1, 1), NumLit(<<48>>)), Bin(">", Bin("/", RelRef(1, 2), RelRef(1, 1)), N1),
+                                                        Bin(">=", RelRef(1, 2), NumLit(<<49, 48, 48>>))>>))
+                  @@ A("S1", 3, 1) :> Fm(CallN("IF", <<RelRef(2, 1), N1, N2>>)) ),
+         names |-> <<>>, inputs |-> {A("S1", 1, 1), A("S1", 1, 2)}]
     [] i = "cross" ->
         [cells |-> ( A("S1", 1, 1) :> Kc(1) @@ A("S 2", 1, 1) :> Kc(1)
                   @@ A("S 2", 2, 1) :> Fm(Bin("*", RelRef(1, 1), N3))
